@@ -1,6 +1,8 @@
 import PercevalModel.Proto
 import PercevalModel.Model.C12
 import PercevalModel.Model.C12Solve
+import PercevalModel.Model.C12Block
+import PercevalModel.Model.C12Glue
 
 /-!
   C12 driver.  Requests (one JSON object per line):
@@ -27,6 +29,21 @@ import PercevalModel.Model.C12Solve
     (`inPlace`: `u[n,j] = 0` of the leading identity skips; every other entry is left as it is).  The main model
     (repaired code, `decompositionRetry`) leaves the array untouched; this op names the shape on which the pinned code
     wrote into its caller's matrix and recognises that behaviour when a tree still has it.
+  * `fold` also reports the ghost recording `trace` of the replayed run (`Model/C12Block.lean`): `"cells"` = one entry
+    `[j, n, solved, a, b, |z|²]` per cell (`a = u[n,j]`, `b = u[n+1,j]` on entry, `z` the value `u[n,j] = 0`
+    overwrites), `"lower"` = the final `u` is exactly lower triangular (`final_u_lower_triangular`), `"resid2"` =
+    `‖U − circMat comps · u‖_F²` and `"offF2"` = the squared Frobenius norm of the off-diagonal part of the final `u`
+    (the quantities of `residue_bound` / `decomposition_error_bound`).
+  * `{"op":"blockmat","block":"bs_ps","c":q,"s":q,"p":[re,im],"a":z,"b":z}` /
+    `{"op":"blockmat","block":"mzi_last","ea":[re,im],"eb":[re,im],"a":z,"b":z}` → the block's matrix `M`
+    (`bsPs` as built / `mziMat`), the matrix `Minv` the equation is built from (`bsPsInv` / `mziInv`), the value `eq` of
+    `cU_inv[0,0]·a + cU_inv[0,1]·b` and whether `Minv · M = 1` — exact, at rational points of the unit circle
+    (`c² + s² = 1`, `|p| = |ea| = |eb| = 1`, rejected otherwise).
+  * `{"op":"glue","shape":{"str":"triangle"|"rectangle"|null} | {"obj":"triangle"|"rectangle"|"foreign"},
+      "unitary":b,"symbolic":b,"constraints":null|"notlist"|[len|-1,…],"nparams":k,"max_try":n,"attempts":[b,…]}` →
+    `{"outcome":"ValueError"|"AssertionError"|"NotImplementedError"|"None"|"circuit","k":attempt}`: the control flow of
+    `Circuit.decomposition` (`Model/C12Glue.lean`); `attempts[k]` = attempt `k` of `decompose_triangle` returned a list
+    (false beyond the end of the array); an entry of `constraints` is the length of a list/tuple or -1 for another object.
   Numbers in replies of `prod`/`fold` are rounded down to multiples of 2⁻¹⁰⁰ (the harness compares with 1e-9).
 -/
 
@@ -112,6 +129,15 @@ def maxNorm2 {n : ℕ} (M : Matrix (Fin n) (Fin n) GQ) (p : Fin n → Fin n → 
     (List.finRange n).foldl (fun acc j =>
       if p i j then max acc (GQ.normSq (M i j)) else acc) acc) 0
 
+def sumNorm2 {n : ℕ} (M : Matrix (Fin n) (Fin n) GQ) (p : Fin n → Fin n → Bool) : ℚ :=
+  (List.finRange n).foldl (fun acc i =>
+    (List.finRange n).foldl (fun acc j =>
+      if p i j then acc + GQ.normSq (M i j) else acc) acc) 0
+
+def cellJson (r : CellRec GQ) : Json :=
+  Json.arr #[toJson r.j, toJson r.n, toJson r.solved, gqToJson (approxG r.a), gqToJson (approxG r.b),
+    ratToJson (approxQ (GQ.normSq r.z))]
+
 def compJson : Comp GQ → Json
   | .block n _ => Json.arr #["block", toJson n]
   | .perm n d => Json.arr #["perm", toJson n, toJson (permList d)]
@@ -159,7 +185,14 @@ def handleFold (j : Json) : Except String Json := do
     let resid := (circMatV m st.comps).toMatrix * u + st.err.toMatrix - materialise U
     let inv2 := maxNorm2 resid fun _ _ => true
     let flat := inverseCircuit v h m (fun _ B => B) (flatOf phaseIdx pattern st.comps)
+    let tr := trace cfg (initSt (materialise U) sols) (cells m)
+    let lower := (List.finRange m).all fun a => (List.finRange m).all fun b => !(a.val < b.val) || decide (u a b = 0)
     return Json.mkObj [
+      ("cells", Json.arr (tr.map cellJson).toArray),
+      ("lower", toJson lower),
+      ("resid2", ratToJson (approxQ (sumNorm2
+        (materialise (materialise U - materialise ((circMatV m st.comps).toMatrix * u))) fun _ _ => true))),
+      ("offF2", ratToJson (approxQ (sumNorm2 u fun i j => i != j))),
       ("comps", Json.arr (st.comps.map compJson).toArray),
       ("observed", Json.arr (items.map itemJson).toArray),
       ("left", toJson st.rest.length),
@@ -210,6 +243,74 @@ def handleSolve (j : Json) : Except String Json := do
   | none => return Json.mkObj [("none", toJson true)]
   | some x => return Json.mkObj [("res", Json.arr (x.map ratToJson).toArray)]
 
+def gqConj (z : GQ) : GQ := ⟨z.re, -z.im⟩
+
+def handleBlock (j : Json) : Except String Json := do
+  let name ← strOf j "block"
+  let a ← gqOfJson (← j.getObjVal? "a")
+  let b ← gqOfJson (← j.getObjVal? "b")
+  let reply (M Minv : Matrix (Fin 2) (Fin 2) GQ) (extra : List (String × Json)) : Json :=
+    let Mm := MatV.ofMatrix M
+    let Mi := MatV.ofMatrix Minv
+    Json.mkObj ([("M", rowsToJson (Mm.toArray.map fun r => r.toArray)),
+      ("Minv", rowsToJson (Mi.toArray.map fun r => r.toArray)),
+      ("eq", gqToJson (nullEq Mi.toMatrix a b)),
+      ("unit", toJson (decide (Mi.toMatrix * Mm.toMatrix = 1)))] ++ extra)
+  if name == "bs_ps" then
+    let c ← ratOfJson (← j.getObjVal? "c")
+    let s ← ratOfJson (← j.getObjVal? "s")
+    let p ← gqOfJson (← j.getObjVal? "p")
+    if c * c + s * s ≠ 1 then throw "c, s not on the unit circle"
+    if GQ.normSq p ≠ 1 then throw "p not on the unit circle"
+    let M := bsPs GQ.I (GQ.ofRat c) (GQ.ofRat s) p
+    let Mc := MatV.ofMatrix (bsPsMat GQ.I (GQ.ofRat c) (GQ.ofRat s) p)
+    return reply M (bsPsInv GQ.I (GQ.ofRat c) (GQ.ofRat s) (gqConj p))
+      [("closed_form_agrees", toJson (decide ((MatV.ofMatrix M).toMatrix = Mc.toMatrix)))]
+  else if name == "mzi_last" then
+    let ea ← gqOfJson (← j.getObjVal? "ea")
+    let eb ← gqOfJson (← j.getObjVal? "eb")
+    if GQ.normSq ea ≠ 1 ∨ GQ.normSq eb ≠ 1 then throw "ea, eb not on the unit circle"
+    let h : GQ := GQ.ofRat (1 / 2)
+    return reply (mziMat GQ.I h ea eb) (mziInv GQ.I h (gqConj ea) (gqConj eb)) []
+  else throw "unknown block"
+
+def readShape (s : String) : Except String Glue.Shape :=
+  if s == "triangle" then pure .triangle
+  else if s == "rectangle" then pure .rectangle
+  else if s == "foreign" then pure .foreign
+  else throw "bad shape"
+
+def handleGlue (j : Json) : Except String Json := do
+  let sj ← j.getObjVal? "shape"
+  let shape : Glue.ShapeArg ←
+    match sj.getObjVal? "str" with
+    | .ok v => if v.isNull then pure (Glue.ShapeArg.str none) else do
+        let s ← readShape (← v.getStr?)
+        if s == .foreign then throw "a string cannot resolve to a foreign object"
+        pure (Glue.ShapeArg.str (some s))
+    | .error _ => do pure (Glue.ShapeArg.obj (← readShape (← (← sj.getObjVal? "obj").getStr?)))
+  let cj ← j.getObjVal? "constraints"
+  let constraints : Glue.Constraints ←
+    if cj.isNull then pure Glue.Constraints.none
+    else match cj.getStr? with
+      | .ok "notlist" => pure Glue.Constraints.notList
+      | .ok _ => throw "bad constraints"
+      | .error _ => do
+        let es ← (← cj.getArr?).toList.mapM fun (e : Json) => do
+          let v ← e.getInt?
+          if v < 0 then pure Glue.Entry.other else pure (Glue.Entry.seq v.toNat)
+        pure (Glue.Constraints.list es)
+  let att ← (← arrOf j "attempts").toList.mapM fun (b : Json) => b.getBool?
+  let mt ← intOf j "max_try"
+  let r : Glue.Req := { shape := shape, unitary := ← boolOf j "unitary", symbolic := ← boolOf j "symbolic",
+                        constraints := constraints, nparams := ← natOf j "nparams", maxTry := mt.toNat }
+  match Glue.outcome r (fun k => att.getD k false) with
+  | .valueError => return Json.mkObj [("outcome", "ValueError")]
+  | .assertionError => return Json.mkObj [("outcome", "AssertionError")]
+  | .notImplementedError => return Json.mkObj [("outcome", "NotImplementedError")]
+  | .none => return Json.mkObj [("outcome", "None")]
+  | .circuit k => return Json.mkObj [("outcome", "circuit"), ("k", toJson k)]
+
 def handle (j : Json) : Json :=
   let r : Except String Json := do
     let op ← strOf j "op"
@@ -217,6 +318,8 @@ def handle (j : Json) : Json :=
     else if op == "fold" then handleFold j
     else if op == "solve" then handleSolve j
     else if op == "leave" then handleLeave j
+    else if op == "blockmat" then handleBlock j
+    else if op == "glue" then handleGlue j
     else throw "unknown op"
   match r with
   | .ok x => x
